@@ -1,6 +1,7 @@
 package an
 
 import (
+	"fmt"
 	"go/ast"
 	"go/token"
 	"go/types"
@@ -10,6 +11,7 @@ import (
 	"golang.org/x/tools/go/types/typeutil"
 
 	"verif/internal/flow"
+	"verif/internal/load"
 )
 
 // Helper predicates. `canVote := r.canVoteFor(m)` says the same as the condition written out in place. When
@@ -214,4 +216,114 @@ func substFormula(f *flow.F, sub, consts map[string]string) *flow.F {
 		}
 	}
 	return flow.AtomKey(substTerm(f.Key, sub))
+}
+
+// exprHelper: the call is to a function of the same package whose body is `return e`, which is a deterministic
+// observer, and which either did not exist when the rule tables were written (always read as e) or is read as e on the
+// second reading.
+func (w *World) exprHelper(fn *load.Func, call *ast.CallExpr) *ast.FuncDecl {
+	if w.Vocab == nil || len(w.Vocab[FunctionsKey]) == 0 || w.NoSplice {
+		return nil
+	}
+	callee, ok := typeutil.Callee(fn.Pkg.TypesInfo, call).(*types.Func)
+	if !ok {
+		return nil
+	}
+	if d, ok := w.exprMemo[callee]; ok {
+		return d
+	}
+	if w.exprMemo == nil {
+		w.exprMemo = map[*types.Func]*ast.FuncDecl{}
+	}
+	w.exprMemo[callee] = nil
+	src := w.P.FuncOf(callee)
+	if src == nil || src.Decl.Body == nil || src.Pkg != fn.Pkg || src.Obj != callee || src.Decl == fn.Decl {
+		return nil
+	}
+	if w.knownFunc(src.Name) && !w.InlinePreds {
+		return nil
+	}
+	if len(src.Decl.Body.List) != 1 {
+		return nil
+	}
+	ret, ok := src.Decl.Body.List[0].(*ast.ReturnStmt)
+	if !ok || len(ret.Results) != 1 {
+		return nil
+	}
+	if sig := callee.Type().(*types.Signature); sig.Results().Len() != 1 || sig.Variadic() {
+		return nil
+	}
+	if !w.detObserver(callee, 0) {
+		return nil
+	}
+	w.exprMemo[callee] = src.Decl
+	return src.Decl
+}
+
+// TruthFormula: the condition under which a loop-free function with one boolean result returns true: the disjunction
+// over its return statements of (path condition ∧ returned condition). Independent of how the returns are arranged
+// (one expression, guard clauses, nested ifs, a switch).
+func (u *Unit) TruthFormula() (*flow.F, string) {
+	why := ""
+	ast.Inspect(u.Body, func(n ast.Node) bool {
+		switch x := n.(type) {
+		case *ast.ForStmt, *ast.RangeStmt, *ast.SelectStmt, *ast.LabeledStmt:
+			why = "the function has a loop, select or label"
+		case *ast.BranchStmt:
+			if x.Tok == token.GOTO {
+				why = "goto"
+			}
+		case *ast.FuncLit:
+			return false
+		}
+		return why == ""
+	})
+	if why != "" {
+		return nil, why
+	}
+	var parts []*flow.F
+	for _, s := range u.Sites {
+		if s.Kind != flow.SReturn || !s.Block.Reachable() {
+			continue
+		}
+		if len(s.Ret.Results) != 1 {
+			return nil, "a return without exactly one result"
+		}
+		parts = append(parts, flow.And(u.SitePC(s), u.C.Formula(flow.FromExpr(s.Ret.Results[0]))))
+	}
+	if len(parts) == 0 {
+		return nil, "no return statement"
+	}
+	return flow.Simplify(flow.Or(parts...)), ""
+}
+
+// Truth: the function returns true exactly when want holds (dir as in ReturnFormula).
+func (r *Report) Truth(rule string, u *Unit, want string, dir Dir) {
+	construct := fmt.Sprintf("%s: returns true iff %s", u.Name, want)
+	got, why := u.TruthFormula()
+	if got == nil {
+		r.Unknown(rule, construct, "", why)
+		return
+	}
+	w := u.W.Parse(want)
+	ok, detail := true, "returns true iff "+got.String()
+	if dir == Equiv || dir == ActualImpliesWant {
+		if res := flow.Implies(got, w); res.Undecided != "" {
+			r.Unknown(rule, construct, "", res.Undecided)
+			return
+		} else if !res.Holds {
+			ok = false
+			detail += "; true is returned where the expected condition is false; row: " + counterString(res.Counter)
+		}
+	}
+	if dir == Equiv || dir == WantImpliesActual {
+		if res := flow.Implies(w, got); res.Undecided != "" {
+			r.Unknown(rule, construct, "", res.Undecided)
+			return
+		} else if !res.Holds {
+			ok = false
+			detail += "; false is returned where the expected condition is true; row: " + counterString(res.Counter)
+		}
+	}
+	r.Check(rule, construct, u.Pos(u.Body.Pos()), ok, detail)
 }
